@@ -238,6 +238,8 @@ func Conclude(cfg *Config, sum *Summary) int {
 				_, again = c10kAll()
 			} else {
 				_, again = c12kAll()
+				_, again2 := c12kKeeperAll(3)
+				again = append(again, again2...)
 			}
 			for _, a := range again {
 				fs = append(fs, a.Finding)
